@@ -525,7 +525,7 @@ func runC15(c *Ctx) {
 				if lockCalls[n] || unlockCalls[n] {
 					return
 				}
-				if aliasingReads[n] {
+				if aliasingReads[n] && !onlyConvertedToString(i) {
 					aliasSites = append(aliasSites, i)
 				}
 				// receiver / first argument rooted at a captured variable of an unsafe type
@@ -584,7 +584,7 @@ func runC15(c *Ctx) {
 						return callName(ci.Common())
 					}
 					return ""
-				}()] {
+				}()] && !onlyConvertedToString(i) {
 					aliasSites = append(aliasSites, i)
 				}
 			})
@@ -610,9 +610,15 @@ func runC15(c *Ctx) {
 					deferred = true
 				}
 			}
-			if !deferred {
+			_ = deferred
+			{
 				set := explore(l, false, func(i ssa.Instruction) bool {
-					return isCallTo(i, "(*sync.Mutex).Unlock", "(*sync.RWMutex).Unlock") && mutexPath(i.(*ssa.Call).Call.Args[0]) == mu
+					if isCallTo(i, "(*sync.Mutex).Unlock", "(*sync.RWMutex).Unlock") {
+						if ci, ok := i.(ssa.CallInstruction); ok && mutexPath(ci.Common().Args[0]) == mu {
+							return true // explicit unlock or the registration of a deferred one
+						}
+					}
+					return false
 				})
 				if len(returnsIn(set)) > 0 {
 					okRelease, whyRel = false, "a path returns with the mutex still locked (every later caller blocks forever)"
@@ -731,4 +737,44 @@ func c15ResolverRotation(c *Ctx) {
 		}
 	})
 	c.Check(ok, key, rule, "single atomic Add", "the resolver rotation is not a single atomic read-modify-write", c.fnAt(fn))
+}
+
+// onlyConvertedToString: the byte slice an aliasing read returns is used only
+// as the operand of a conversion to string (which copies).
+func onlyConvertedToString(i ssa.Instruction) bool {
+	call, ok := i.(*ssa.Call)
+	if !ok {
+		return false
+	}
+	var vals []ssa.Value
+	if _, isTuple := call.Type().(*types.Tuple); isTuple {
+		for _, r := range refs(call) {
+			if ex, ok := r.(*ssa.Extract); ok && ex.Index == 0 {
+				vals = append(vals, ex)
+			} else if ex, ok := r.(*ssa.Extract); ok {
+				_ = ex
+			}
+		}
+	} else {
+		vals = []ssa.Value{call}
+	}
+	if len(vals) == 0 {
+		return false
+	}
+	for _, v := range vals {
+		rs := refs(v)
+		if len(rs) == 0 {
+			return false
+		}
+		for _, r := range rs {
+			cv, ok := r.(*ssa.Convert)
+			if !ok {
+				return false
+			}
+			if b, ok := cv.Type().Underlying().(*types.Basic); !ok || b.Kind() != types.String {
+				return false
+			}
+		}
+	}
+	return true
 }
